@@ -302,6 +302,7 @@ def _eval_new_ctx(
         _logger.debug(
             f"_eval_new_ctx: introspect_indirect: {len(all_loads)} loads and {len(all_stores)} detected"
         )
+        FunctionIndirectInteractionUtils.check_load_order(inters_indirect, all_stores)
         loads_to_check = sorted([p for p in all_loads if p not in all_stores])
         # Check that there are no indirect references to resolve:
         if loads_to_check:
